@@ -49,7 +49,7 @@ func init() {
 func c04Cases(tier string, seed int64) []string {
 	n, f := 8, 8
 	if tier == "thorough" {
-		n, f = 100, 120
+		n, f = 1200, 1600
 	}
 	var l []string
 	for i := 0; i < n; i++ {
